@@ -144,11 +144,11 @@ def body_cstruct(E, which, n):
         E.prove(E.any([E.all([E.eq(d[i], z[i] - xopt[i]) for i in range(n)]) for z in outs]), which + ':step-is-a-projection-output-minus-centre')
 
 
-def body_trs_regularised(E, n, proj=False):
+def body_trs_regularised(E, n, proj=False, scaling=False):
     """Controller.trust_region_step with h: the step handed back never has a negative predicted reduction"""
     from ..state import mk_controller, EvalLog, mk_objfun
     np = E.np
-    C, M, ghost, params = mk_controller(E, n, 1, n + 1, n + 1, with_h=True, with_save=False, objfun=None, kopt_minimal=True)
+    C, M, ghost, params = mk_controller(E, n, 1, n + 1, n + 1, with_h=True, with_save=False, objfun=None, kopt_minimal=True, scaling=scaling)
     if proj:
         # general convex constraints: the model maps points to user space through the alternating projection (identity stand-in here)
         M.projections = [lambda w: w, lambda w: w]
@@ -161,7 +161,8 @@ def body_trs_regularised(E, n, proj=False):
     E.hooks(la=lambda name, args, kw: E.real('normH', lo=0) if name == 'norm2' else NotImplemented)   # spectral norm of H: LAPACK-level for n >= 2
     d, gopt, H, gnew, crvmin = C.trust_region_step(params, E.real('crit', npy=False, lo=0))
     x = M.xopt(abs_coordinates=True)
-    pred = M.h(x) - (np.dot(d, gopt + E.const('0.5') * np.dot(H, d)) + M.h(x + d))
+    us = (lambda v: v) if not scaling else (lambda v: E.get('remove_scaling')(v, C.scaling_changes))     # h is a function of the point in user units
+    pred = M.h(us(x)) - (np.dot(d, gopt + E.const('0.5') * np.dot(H, d)) + M.h(us(x + d)))
     E.prove(pred >= 0, 'regularised-step:predicted-reduction-non-negative')
     zero = E.all([d[i] == 0 for i in range(n)])
     same = E.all([E.eq(d[i], dstub[i]) for i in range(n)])
@@ -198,8 +199,10 @@ def harnesses(tier, seed):
                               assumptions=["dykstra stubbed: arbitrary output; with C15 (result = last projector's output) and pball[n] this gives ||d|| <= Delta",
                                            "one user projector (identity stand-in; only its position in the list matters)"],
                               expect=[which + ':ball-projected-last-with-right-centre-and-radius'], nproc=1))
-    for (n, pj) in ([(1, False), (1, True)] if tier == 'quick' else [(1, False), (1, True), (2, False), (2, True)]):
-        hs.append(Harness("regularised-step[n=%d,projections=%d]" % (n, pj), 'dfverif.checks.c13', 'body_trs_regularised', params=dict(n=n, proj=pj), cfg=nra(),
+    for (n, pj, scl) in ([(1, False, False), (1, True, False), (1, False, True)] if tier == 'quick' else
+                         [(1, False, False), (1, True, False), (1, False, True), (2, False, False), (2, True, False)]):
+        hs.append(Harness("regularised-step[n=%d,projections=%d%s]" % (n, pj, ',scaling' if scl else ''), 'dfverif.checks.c13', 'body_trs_regularised',
+                          params=dict(n=n, proj=pj, scaling=scl), cfg=nra(),
                           functions=FUNCS, bounds="n=%d, m=1, any model, any step returned by S-FISTA, %s" % (n, 'user projections' if pj else 'bounds only'),
                           assumptions=["ctrsbox_sfista stubbed: arbitrary step", "h(x) = lam*sum|x_i-c_i|"],
                           expect=['regularised-step:predicted-reduction-non-negative'], nproc=1))
